@@ -130,7 +130,12 @@ def _run_comp(ctx, spec, rng):
     d = int(rng.integers(2, 5))
     r = int(rng.integers(1, 7))
     cplx = rng.random() < 0.7
-    k_ops = gen.stinespring_kraus(rng, d, d, r, cplx)
+    pattern = ["uniform", "uniform", "real-then-complex", "int-then-float"][spec[1] % 4]
+    if pattern == "uniform":
+        k_ops = gen.stinespring_kraus(rng, d, d, r, cplx)
+    else:  # operators of different dtypes in one family (narrowest first)
+        k_ops = gen.mixed_dtype_channel(rng, d, pattern)
+        r, cplx = len(k_ops), pattern
     comp = ctx.call(complementary_channel, list(k_ops))
     if comp is not FAILED:
         rho = gen.density(rng, d, int(rng.integers(1, d + 1)))
